@@ -146,3 +146,20 @@ Proof.
   { eexists. split; [vm_compute; reflexivity|]. split; vm_compute; reflexivity. }
   destruct E as (s' & E1 & E2 & E3). rewrite (H s' _ E1 E2) in E3. discriminate.
 Qed.
+
+(** ---- the general corollary: its hypotheses hold for the boot state and frame F ---- *)
+From FF Require Vmm.PtInit Vmm.PtMap.
+Lemma boot_inv : PtMap.Inv boot 0x100 0x100 (PtInit.own_root 0x100).
+Proof.
+  apply PtInit.Inv_init; [reflexivity | vm_compute; discriminate | |].
+  - vm_compute. repeat constructor; cbn; intuition discriminate.
+  - intros f Hin Hz. cbn in Hin. repeat (destruct Hin as [<-|Hin]; [vm_compute; split; reflexivity|]). destruct Hin.
+Qed.
+
+Example C04_pdt_init_is_translation_inv_nonvacuous :
+  PtMap.Inv boot 0x100 0x100 (PtInit.own_root 0x100) /\ (prot boot && (F =? zf boot)) = false /\ backed boot F = true /\
+  PtInit.own_root 0x100 F = None /\ ~ In F (orc boot).
+Proof.
+  split; [exact boot_inv|]. repeat split; try reflexivity.
+  cbn. intuition discriminate.
+Qed.
